@@ -200,7 +200,7 @@ TLegacy ==
      /\ LayerM => Report(l, "M:legacy-wire",
                          IF Len(e.wire) = 0 THEN {}
                          ELSE IF e.v3 = 1
-                              THEN (IF e.wire # V3Stream(OldTrie(e.keys), e.vals, e.patch) THEN {"three-section"} ELSE {})
+                              THEN (IF e.wire # V3StreamH(OldTrie(e.keys), e.vals, e.patch, e.hpatch) THEN {"three-section"} ELSE {})
                               ELSE (IF e.wire # Old0510Stream(LegacyContent(e), e.minor) THEN {"0.5.1x"} ELSE {}))
 
 \* the writers of the harness reproduce the archived fixtures byte for byte
@@ -256,22 +256,25 @@ BigBad(e) ==
       c05     |-> {j \in 1..n : I(j).fresh # <<I(j).id, I(j).get, I(j).rget, I(j).srch>>}
                   \cup (IF e.stat3 # e.freshstat THEN {0} ELSE {})]
 
+\* a large trie loaded from a historical layout reports under C06 (like PC for small ones)
+BC(e, prop, what) == IF e.legacy = 1 THEN "P:C06:" \o prop \o "-" \o what ELSE "P:" \o prop \o ":" \o what
 TObsBig ==
   /\ Ev("obsbig") /\ inst' = NoInst
-  /\ LET b == BigBad(Trace[l]) IN
+  /\ LET e == Trace[l]
+         b == BigBad(e) IN
      /\ Report(l, "W:neighbours", b.witness)
-     /\ Report(l, "P:C10:panic", b.panic)
-     /\ Report(l, "P:C01:get", b.c01)
-     /\ Report(l, "P:C02:rget", b.c02)
-     /\ Report(l, "P:C09:search", b.c09)
-     /\ Report(l, "P:C03:get", b.c03)
-     /\ Report(l, "P:C10:agree", b.c10)
-     /\ Report(l, "P:C14:geti", b.c14)
-     /\ Report(l, "P:C18:stat", b.c18)
+     /\ Report(l, BC(e, "C10", "panic"), b.panic)
+     /\ Report(l, BC(e, "C01", "get"), b.c01)
+     /\ Report(l, BC(e, "C02", "rget"), b.c02)
+     /\ Report(l, BC(e, "C09", "search"), b.c09)
+     /\ Report(l, BC(e, "C03", "get"), b.c03)
+     /\ Report(l, BC(e, "C10", "agree"), b.c10)
+     /\ Report(l, BC(e, "C14", "geti"), b.c14)
+     /\ Report(l, BC(e, "C18", "stat"), b.c18)
      /\ Report(l, "P:C05:answers", b.c05)
 TBigFail ==
   /\ Ev("bigfail") /\ inst' = NoInst
-  /\ Report(l, "P:C08:outcome", {1})
+  /\ Report(l, IF "legacy" \in DOMAIN Trace[l] THEN "P:C06:load" ELSE "P:C08:outcome", {1})
 
 \* large renderings (C19, Layer P only): every node id once, the leaf column = the retained
 \* values in key order (e.expvals: computed by the harness from its own input), loaded = fresh
